@@ -1,4 +1,4 @@
-import LexVerif.Proof.ParseNumberC11
+import LexVerif.Proof.ParseNumberC11Trunc
 /-!
 # C11 — partial and complete parsers agree (float syntax layer)
 
@@ -298,5 +298,94 @@ theorem not_partial_prefix_full : ¬ partial_prefix_full := by
   rw [show List.take (pcount (.special .nan false 3)) [110, 97, 110, 94] = [110, 97, 110] by decide,
     witness_B_radix24_syntax.2] at this
   cases this
+
+/-! ## (B) proved part: truncation of the phases of `parse_number` (no `format` feature, release build)
+
+`trunc n b` cuts the buffer after `n` bytes. Each phase that returns with its cursor at `i ≤ n` returns the same
+result on the truncated buffer (bytes at positions `≥ i` are inspected only to decide to stop). -/
+
+/-- integer, fraction and exponent phase commute with truncation at or beyond their final cursor; the cursor only
+moves forward and stays inside the buffer. (The digit loops `parse_digits`, `try_parse_8digits`, `parse_8digits` and
+`parse_sign!` are `parseDigits_trunc`, `tryParse8_trunc`, `parse8Digits_trunc`, `parseSign_trunc` in
+`Proof/ParseNumberC11Trunc.lean`.) -/
+theorem partial_prefix_phases_partial (c : Cfg) (o : POpts) (hf : c.feats.format = false) (hd : c.debug = false)
+    (b : Bytes) (hv : C12.Bytes.Valid b) :
+    (∀ ip, integerPhase c b = .ok ip →
+      b.index ≤ ip.byte.index ∧ ip.byte.index ≤ b.slc.length ∧
+      ∀ n, ip.byte.index ≤ n → integerPhase c (trunc n b) = .ok { ip with start := trunc n b, byte := trunc n ip.byte }) ∧
+    (∀ m fp, fractionPhase c o b m = .ok fp →
+      b.index ≤ fp.byte.index ∧ fp.byte.index ≤ b.slc.length ∧
+      ∀ n, fp.byte.index ≤ n → fractionPhase c o (trunc n b) m = .ok { fp with byte := trunc n fp.byte }) ∧
+    (∀ fr ex ep, b.index < b.slc.length → exponentPhase c true b fr ex = .ok ep →
+      b.index + 1 ≤ ep.byte.index ∧ ep.byte.index ≤ b.slc.length ∧
+      ∀ n, ep.byte.index ≤ n → exponentPhase c true (trunc n b) fr ex = .ok { ep with byte := trunc n ep.byte }) := by
+  refine ⟨?_, ?_, ?_⟩
+  · intro ip h
+    obtain ⟨_, e2, e3, e4, _, _, e7⟩ := integerPhase_trunc hf hd b ip hv h
+    have hs : ip.byte.slc = b.slc := by rw [e2]; rfl
+    exact ⟨e3, by have : ip.byte.index ≤ ip.byte.slc.length := e4
+                  rw [hs] at this; exact this, e7⟩
+  · intro m fp h
+    obtain ⟨e1, e2, e3, _, e5⟩ := fractionPhase_trunc hf hd o b m fp hv h
+    have hs : fp.byte.slc = b.slc := by rw [e1]; rfl
+    exact ⟨e2, by have : fp.byte.index ≤ fp.byte.slc.length := e3
+                  rw [hs] at this; exact this, e5⟩
+  · intro fr ex ep hlt h
+    obtain ⟨e1, _, e3, e4, e5⟩ := exponentPhase_trunc hf hd true b fr ex ep hv (fun _ => hlt) h
+    have hs : ep.byte.slc = b.slc := by rw [e1]; rfl
+    exact ⟨e4 rfl, by have : ep.byte.index ≤ ep.byte.slc.length := e3
+                      rw [hs] at this; exact this, e5⟩
+
+/-- non-vacuity: "12.5e3x" — the three phases succeed -/
+example : (∃ ip, integerPhase ⟨{}, Format.standard, false⟩ (Bytes.new [49, 50, 46, 53, 101, 51, 120]) = .ok ip ∧
+      ip.byte.index = 2) ∧
+    (∃ fp, fractionPhase ⟨{}, Format.standard, false⟩ {} { slc := [49, 50, 46, 53, 101, 51, 120], index := 2 } 12 = .ok fp ∧
+      fp.byte.index = 4) ∧
+    (∃ ep, exponentPhase ⟨{}, Format.standard, false⟩ true { slc := [49, 50, 46, 53, 101, 51, 120], index := 4 }
+      (some [53]) (-1) = .ok ep ∧ ep.byte.index = 6) :=
+  ⟨⟨_, rfl, rfl⟩, ⟨_, rfl, rfl⟩, ⟨_, rfl, rfl⟩⟩
+
+/-! ## (B) remaining targets (not proved) -/
+
+/-- missing step 1: the many-digits re-parse. Needed: `skipZeros` from `ip.start` stops at or before the first byte
+that is not '0' (`parseDigits_stop`: the byte the digit loops stop at is not a digit, hence not '0' when `radix ≥ 1`),
+so it commutes with truncation; everything else in `manyDigitsPhase` reads only the stored slices. -/
+def manyDigitsPhase_trunc_goal : Prop :=
+  ∀ (c : Cfg) (o : POpts) (neg : Bool) (ip : IntPart) (fp : FracPart) (ep : ExpPart) (nd step : Nat) (e0 : Int)
+    (endIdx n : Nat) (r : Number × Nat),
+    c.feats.format = false → c.debug = false → 2 ≤ c.mantissaRadix → C12.Bytes.Valid ip.start →
+    (∀ b, integerPhase c b = .ok ip → fractionPhase c o ip.byte ip.mantissa = .ok fp → fp.byte.index ≤ n →
+      manyDigitsPhase c o neg ip fp ep nd step e0 endIdx = .ok r →
+      manyDigitsPhase c o neg { ip with start := trunc n ip.start, byte := trunc n ip.byte }
+        { fp with byte := trunc n fp.byte } { ep with byte := trunc n ep.byte } nd step e0 endIdx = .ok r)
+
+/-- missing step 2: composition through `parse_number` (uses the phase lemmas above, `manyDigitsPhase_trunc_goal`, and
+`first_trunc` for the exponent-character test) -/
+def parseNumber_trunc_goal : Prop :=
+  ∀ (c : Cfg) (o : POpts) (b : Bytes) (neg : Bool) (r : Number) (count : Nat),
+    c.feats.format = false → c.debug = false → 2 ≤ c.mantissaRadix → C12.Bytes.Valid b →
+    parseNumber c true o b neg = .ok (r, count) →
+    b.index < count ∧ count ≤ b.slc.length ∧
+    ∀ n, count ≤ n → parseNumber c false o (trunc n b) neg = .ok (r, count)
+
+/-- target, number case: no `format` feature, release build, every input and options -/
+def partial_prefix_noformat_number : Prop :=
+  ∀ (c : Cfg) (o : POpts) (s : List Nat) (x : Number) (cnt : Nat),
+    c.feats.format = false → c.debug = false → 2 ≤ c.mantissaRadix →
+    parseFloatSyntax c o true s = .ok (.number x cnt) →
+    parseFloatSyntax c o false (s.take cnt) = .ok (.number x cnt)
+
+/-- target, special case: needs the exclusion of class (iii) — the first byte of every special string (either case) is
+neither a mantissa digit nor the decimal point, so `parse_number` fails on the prefix too (false without it:
+`witness_B_radix24_nan`) -/
+def partial_prefix_noformat_special : Prop :=
+  ∀ (c : Cfg) (o : POpts) (s : List Nat) (sp : Special) (neg : Bool) (cnt : Nat),
+    c.feats.format = false → c.debug = false → 2 ≤ c.mantissaRadix →
+    (c.feats.powerOfTwo = false → c.mantissaRadix ≤ 10) →
+    (∀ str, (o.nan = some str ∨ o.inf = some str ∨ o.infinity = some str) →
+      ∃ y ys, str = y :: ys ∧ ∀ x, (Nat.xor x y = 0 ∨ Nat.xor x y = 32) →
+        charToDigit x c.mantissaRadix = none ∧ x ≠ o.dp) →
+    parseFloatSyntax c o true s = .ok (.special sp neg cnt) → cnt > 0 →
+    parseFloatSyntax c o false (s.take cnt) = .ok (.special sp neg cnt)
 
 end LexVerif.Props.C11
